@@ -227,7 +227,7 @@ void buildModel(const sess::History& h, Model& m) {
                         g.searchMoves.push_back(mv);
                         idx++;
                     }
-                } else if (sub == "ponder") g.ponder = true;
+                } else if (sub == "ponder") g.ponder = g.ponderKw = true;
                 else if (sub == "wtime") num(g.wtime);
                 else if (sub == "btime") num(g.btime);
                 else if (sub == "winc") num(g.winc);
